@@ -43,6 +43,10 @@ CORPUS = [
      ("typedef AB ABalias;", ["ABalias"], ["AB"])],
     [("enum PE : uint8 { PA = (1 + 2), PB = ~0 & 3, PC = (PA | 4) * 2, PD = -(-5), PF, PG = ~(~7) };", ["PE"], []), ("flag PF_ : uint16 { QA = (1), QB = (QA << 1) | QA, QC = ~0xFFF0 };", ["PF_"], []),
      ("struct PS { PE e; PF_ f; uint8 a[(2 + 1) * 2]; uint8 b[~0 & 3]; };", ["PS"], ["PE", "PF_"])],
+    [("enum EB : unsigned int { EA = 1, EBB };", ["EB"], []), ("flag FB : unsigned short { FA, FBB };", ["FB"], []), ("enum EC : signed char { ECA = -1 };", ["EC"], []),
+     ("struct EBS { EB e; FB f; EC c; unsigned long long q; };", ["EBS"], ["EB", "FB", "EC"])],
+    [("struct bf1 { uint8 flag : 1; uint8 rest : 7; };", ["bf1"], []), ("struct bf2 { uint8 a; };", ["bf2"], []), ("struct bf3 { uint16 enum : 4; uint16 other : 12; };", ["bf3"], []),
+     ("union bf4 { uint8 b; uint16 w; };", ["bf4"], [])],
     [("enum AE : int16 { M = -2, N, O = M + 10 };", ["AE"], []), ("flag AF { F1, F2, F3 };", ["AF"], []), ("#define SZ 2\n", ["SZ"], []), ("struct AG { AE e[SZ]; AF f; };", ["AG"], ["AE", "AF", "SZ"])],
     [("struct AH { uint8 _; uint16 _; uint8 a; };", ["AH"], [])],
     [("#define len 4\n", ["len"], []), ("struct HasConst { uint8 a[len]; uint8 t; };", ["HasConst"], ["len"]), ("struct HasField { uint8 len; uint8 data[len]; uint8 t; };", ["HasField"], ["len"]),
